@@ -5,6 +5,7 @@ import (
 	"go/ast"
 	"go/token"
 	"go/types"
+	"os"
 	"strings"
 
 	"j5verif/checker/core"
@@ -43,10 +44,27 @@ func PanicSites(r *core.Run, sc *Scope, bce *BCE, table string) {
 			case *ast.CallExpr:
 				if core.CalleeName(info, x) == "builtin.panic" {
 					arg := ""
+					key := siteKey(f, "panic()")
 					if len(x.Args) == 1 {
 						arg = shortArg(info, x.Args[0])
+						// the key text is cut after the locals have been replaced by their types, so
+						// that the cut does not move with the length of a local's name
+						full := core.ExprStr(x.Args[0])
+						if s, ok := core.ConstString(info, x.Args[0]); ok {
+							full = fmt.Sprintf("%q", s)
+						}
+						nk := []rune(normLocals(f, full))
+						if len(nk) > 70 {
+							nk = nk[:70]
+						}
+						key = f.Name + " | panic(" + string(nk) + ")"
+						if os.Getenv("J5CHECK_KEYMAP") != "" {
+							if oldk := siteKey(f, "panic("+arg+")"); oldk != key {
+								fmt.Fprintf(os.Stderr, "KEYMAP\t%s\t%s\n", oldk, key)
+							}
+						}
 					}
-					o := r.Add("R-PANIC/P1", siteKey(f, "panic("+arg+")"), x.Pos(), "explicit panic "+arg)
+					o := r.Add("R-PANIC/P1", key, x.Pos(), "explicit panic "+arg)
 					if !r.Table(table, o) {
 						o.Fail("reachable explicit panic with no recorded reason why it cannot fire")
 					}
